@@ -292,24 +292,14 @@ class Hang(BaseException):
     """Raised by the watchdog (BaseException so that ctx.guard does not turn it into a crash signature)."""
 
 
-HANG_S = 45
+HANG_S = 300  # a toy-size policy call takes ~10-50 ms: three to four orders of magnitude of head room, so that machine load
+# can never turn into a verdict; decoding loops that never reach `done` would otherwise stall a shard
 
 
-@contextlib.contextmanager
-def watchdog(seconds=HANG_S):
-    def handler(signum, frame):
-        raise Hang()
-    try:
-        old = signal.signal(signal.SIGALRM, handler)
-    except ValueError:  # not in the main thread: no watchdog
-        yield
-        return
-    signal.setitimer(signal.ITIMER_REAL, seconds)
-    try:
-        yield
-    finally:
-        signal.setitimer(signal.ITIMER_REAL, 0)
-        signal.signal(signal.SIGALRM, old)
+def watchdog(seconds=None):
+    """Wall-clock guard around policy calls (nest-safe, shared implementation in vf.runner)."""
+    from ..runner import time_limit
+    return time_limit(HANG_S if seconds is None else seconds, Hang)
 
 
 _MDAM_CACHE = OrderedDict()
